@@ -254,6 +254,8 @@ namespace vf
 
         void summarize(bool fixpoint_expected = true)
         {
+            if (std::getenv("VERIF_DUMP_KEYS"))   // debugging aid: the canonical keys of all known states, on stderr
+                for (auto& kv : index) std::fprintf(stderr, "KEY %s\n", jesc(kv.first).c_str());
             stat("states", (long long)worlds.size());
             stat("transitions", transitions);
             stat("traces_validated_against_impl", transitions);
